@@ -148,6 +148,31 @@ def unwrap_carrier(prog, g, operand, depth=0):
     return operand
 
 
+def driver_only_stdout(prog, f, call):
+    """A stdout write in a crate-root driver function on a path that never
+    runs a script: no call that can reach the program evaluator lies before
+    or after it (`seed --version`, `seed --help`).  Such a write cannot mix
+    with a script's output or with a failure diagnostic."""
+    if f.root_fn().module != "" or f.is_closure:
+        return False
+    memo = getattr(prog, "_reach_eval", None)
+    if memo is None:
+        graph = prog.call_graph()
+        evs = [g.path for g in prog.hand_fns() if not g.is_closure
+               and any(t == "&ast::Prog" for t in g.locals[1:g.arg_count + 1])]
+        memo = prog._reach_eval = {p for p in prog.fns if any(e in prog.reachable_from([p], graph) for e in evs)} | set(evs)
+    if not memo:
+        return False
+    runs = [c.bb for c in f.calls() if not c.is_ptr and c.res in memo]
+    after = f.reach_from(call.bb)
+    if any(b in after for b in runs):
+        return False
+    for b in runs:
+        if call.bb in f.reach_from(b):
+            return False
+    return True
+
+
 def value_module(prog):
     a = prog.adts.get("eval::value::Value")
     return a["module"] if a and a.get("module") else "eval::value"
